@@ -186,6 +186,14 @@ def _ck(ctx, C, p):
     total = len(x)
     (c0, c1), (g0, g1) = _regions(p, total, k)
     if kind == "ck-roundtrip":
+        from .c17 import fingerprint
+
+        class _NoMods:
+            modules = {}
+        f0 = fingerprint(_NoMods, [d])
+        api.outcome(d.parse, x)
+        api.outcome(d.build, v)
+        ctx.check("building and verifying leave no state behind in the Checksum construct (no digest memo)", f0 == fingerprint(_NoMods, [d]))
         want = H(x[c0:c1])
         dg = x[g0:g1] if p["dig"] != "int32" else int_from_bytes(x[g0:g1], "big")
         ctx.check("build stores the hash of the covered bytes in the digest field", ctx.eq(dg, want))
